@@ -1,4 +1,7 @@
+#[cfg(not(grevm_verif))]
 use std::sync::atomic::{AtomicUsize, Ordering};
+#[cfg(grevm_verif)]
+use crate::verif::sync::atomic::{AtomicUsize, Ordering};
 
 /// A monotonic cursor published by one scheduler coordinator.
 #[derive(Debug)]
